@@ -118,7 +118,12 @@ class Decimal(SimpleModel):
                                                         " %r ! <= %r" % (fd, td)
 
         msl = kwargs.get('max_str_len', None)
-        if msl is None:
+        if msl is None and td is None:
+            # nothing that bears on the length of the string is being changed:
+            # keep what the type being customized has.
+            kwargs.pop('max_str_len', None)
+
+        elif msl is None:
             kwargs['max_str_len'] = cls.Attributes.total_digits + 2
             # + 1 for decimal separator
             # + 1 for negative sign
